@@ -22,7 +22,7 @@ from .c16_backends import (ABSENT, HEAD, DictBackend, DiskBackend, GitView, Obje
 
 METHOD = {"Set": "set_if_equals", "SetIfEquals": "set_if_equals", "AddIfNew": "add_if_new",
           "Remove": "remove_if_equals", "RemoveIfEquals": "remove_if_equals", "SetSymbolic": "set_symbolic_ref",
-          "PackRefs": "pack_refs", "GitPack": "get_packed_refs", "Reopen": "__init__"}
+          "PackRefs": "pack_refs", "GitPack": "get_packed_refs", "Reopen": "__init__", "BatchSet": "batch_update"}
 
 
 # ------------------------------------------------------------------------------- graph
@@ -119,6 +119,8 @@ def call_str(lab):
         return f"pack_refs(all={lab['v'] == 'all'})"
     if op == "GitPack":
         return "git pack-refs --all --prune"
+    if op == "BatchSet":
+        return f"batch of {lab.get('count', '?')} refs[n] = v"
     return "reopen"
 
 
@@ -165,7 +167,7 @@ def state_features(loose, packed, obs):
     f = set()
     for n, e in loose.items():
         if e[0] == "sym":
-            f.add({"KeyError": "dangling-symref", "SymrefLoop": "symref-loop"}.get(obs[n], "symref"))
+            f.add({"KeyError": "dangling-symref", "SymrefLoop": "symref-loop"}.get(obs.get(n), "symref"))
             if packed.get(n, ABSENT) != ABSENT:
                 f.add("symref-over-stale-packed")
     if any(p != ABSENT for p in packed.values()):
@@ -176,7 +178,7 @@ def state_features(loose, packed, obs):
 def call_case(lab, loose, packed, fs, obs=None):
     """Abstract description of a call relative to the state it is made in (for signatures)."""
     op = lab["op"]
-    if op in ("PackRefs", "Reopen", "GitPack"):
+    if op in ("PackRefs", "Reopen", "GitPack", "BatchSet"):
         return f"{op}({lab['v']})"
     e = eff(loose, packed)
     n, tgt = lab["n"], lab["tgt"]
@@ -194,7 +196,7 @@ def call_case(lab, loose, packed, fs, obs=None):
         new = " to=" + ("self" if lab["t"] == n else te[0])
     head = " HEAD" if n == HEAD else ""
     if obs is not None and e.get(n, ABSENT)[0] == "sym":
-        head = {"KeyError": "(dangling)", "SymrefLoop": "(loop)"}.get(obs[n], "(resolves)") + head
+        head = {"KeyError": "(dangling)", "SymrefLoop": "(loop)"}.get(obs.get(n), "(resolves)") + head
     return (f"{op} old={old}{new} name={placement(loose, packed, n)}{head} "
             f"target={'=name' if tgt == n else placement(loose, packed, tgt)} "
             f"blockers={blockers(loose, packed, tgt)} fs={fs}")
